@@ -22,6 +22,10 @@ impl Query for Comparison {
 
 fn lt<'a, T: Queryable>(lhs: State<'a, T>, rhs: State<'a, T>) -> bool {
     let cmp = |lhs: &T, rhs: &T| {
+        // two integers are compared as integers: beyond 2^53 their f64 images coincide
+        if let (Some(lhs_int), Some(rhs_int)) = (lhs.as_i64(), rhs.as_i64()) {
+            return lhs_int < rhs_int;
+        }
         let lhs_f64 = lhs.as_f64().or_else(|| lhs.as_i64().map(|v| v as f64));
         let rhs_f64 = rhs.as_f64().or_else(|| rhs.as_i64().map(|v| v as f64));
         if let (Some(lhs_num), Some(rhs_num)) = (lhs_f64, rhs_f64) {
@@ -57,6 +61,10 @@ fn eq<'a, T: Queryable>(lhs_state: State<'a, T>, rhs_state: State<'a, T>) -> boo
 /// Compare two JSON values for equality.
 /// For numbers, it should implement interoperability for integer and float
 fn eq_json<T: Queryable>(lhs: &T, rhs: &T) -> bool {
+    // two integers are compared as integers: beyond 2^53 their f64 images coincide
+    if let (Some(lhs_int), Some(rhs_int)) = (lhs.as_i64(), rhs.as_i64()) {
+        return lhs_int == rhs_int;
+    }
     let lhs_f64 = lhs.as_f64().or_else(|| lhs.as_i64().map(|v| v as f64));
     let rhs_f64 = rhs.as_f64().or_else(|| rhs.as_i64().map(|v| v as f64));
 
